@@ -12,6 +12,7 @@ import PqlModel.Props.C02EndToEndSource
 import PqlModel.Props.C05WriteIRAll
 import PqlModel.Props.C05WriteIRStmt
 import PqlModel.Props.C07Defaults
+import PqlModel.Props.C02SplitImperative
 #print axioms Pql.C02.C02_canAttachSort_table
 #print axioms Pql.C02.C02_top_eq_sort_take
 #print axioms Pql.C02.C02_spec_top
@@ -67,3 +68,17 @@ import PqlModel.Props.C07Defaults
 #print axioms Pql.E2EFinal.C02_end_to_end_program_bytes
 #print axioms Pql.E2EFinal.C02_end_to_end_program_bytes_detail
 #print axioms Pql.E2EFinal.C02_end_to_end_program_run
+#print axioms Pql.SplitImp.C02_splitQueries_refines
+#print axioms Pql.SplitImp.C02_splitQueries_refines_list
+#print axioms Pql.SplitImp.C02_splitQueries_refines_top
+#print axioms Pql.SplitImp.C02_splitQueriesI_post
+#print axioms Pql.SplitImp.C02_callee_preserves_caller_view
+#print axioms Pql.SplitImp.C02_lastSubquery_is_last
+#print axioms Pql.SplitImp.C02_aliasing_is_visible
+#print axioms Pql.SplitImp.C02_limit_never_crosses_nested_imp
+#print axioms Pql.SplitImp.C05_names_by_index_imp
+#print axioms Pql.SplitImp.C05_reads_earlier_imp
+#print axioms Pql.SplitImp.C02_compile_imperative
+#print axioms Pql.SplitImp.C02_refines_needs_valid
+#print axioms Pql.SplitImp.C02_refines_needs_source
+#print axioms Pql.SplitImp.C02_refines_needs_as_name
